@@ -109,22 +109,26 @@ Proof.
   intros HI Ea Hp [p [Hin Hg]]. unfold pop_round in Hp. rewrite Ea in Hp. cbn [negb] in Hp.
   destruct HI as [_ _ _ _ Hnd Hids _ _].
   pose proof (ph1_keeps w p Hnd) as H1. pose proof (ph1_keys w) as Hk1. unfold ph1 in H1, Hk1.
-  destruct (match qrel w with [] => ([], [], pubout w) | p1 :: r => ([p1], r, store (pid p1) p1 (pubout w)) end) as [[o1 qrel1] out1].
-  cbn [fst snd] in H1, Hk1.
   unfold pend in Hin. rewrite !in_app_iff in Hin.
+  destruct (qrel w) as [|pr rr] eqn:Eqr; cbn [fst snd] in H1, Hk1.
+  2: { (* a retransmission at the head: nothing new is popped behind it *)
+       assert (Hin1 : In p (q12 w) \/ In p rr \/ In p (map snd (store (pid pr) pr (pubout w))) \/ In p (p_q12 w) \/ In p (p_unack w)).
+       { destruct Hin as [H|[H|[H|H]]]; [left; exact H | destruct (H1 (or_introl H)); tauto | destruct (H1 (or_intror H)); tauto | tauto]. }
+       destruct (q0 w) as [|p3 r3]; inversion Hp; subst; exists p; (split; [|exact Hg]);
+         unfold pend, wr_set; cbn [q12 qrel pubout p_q12 p_unack]; rewrite !in_app_iff; exact Hin1. }
   (* where the message is after phase 1 *)
-  assert (Hin1 : In p (q12 w) \/ In p qrel1 \/ In p (map snd out1) \/ In p (p_q12 w) \/ In p (p_unack w)).
-  { destruct Hin as [H|[H|[H|H]]]; [left; exact H | destruct (H1 (or_introl H)); tauto | destruct (H1 (or_intror H)); tauto | tauto]. }
+  assert (Hin1 : In p (q12 w) \/ In p (@nil pkt) \/ In p (map snd (pubout w)) \/ In p (p_q12 w) \/ In p (p_unack w)).
+  { destruct Hin as [H|[H|[H|H]]]; [left; exact H | destruct H | destruct (H1 (or_intror H)); tauto | tauto]. }
   clear Hin H1.
   assert (Hdone : forall f2 q0' q12' out2,
-            (In p q12' \/ In p qrel1 \/ In p (map snd out2) \/ In p (p_q12 w) \/ In p (p_unack w)) ->
-            P t (wr_set w f2 q0' q12' qrel1 out2)).
+            (In p q12' \/ In p (@nil pkt) \/ In p (map snd out2) \/ In p (p_q12 w) \/ In p (p_unack w)) ->
+            P t (wr_set w f2 q0' q12' [] out2)).
   { intros f2 q0' q12' out2 H. exists p. split; [|exact Hg]. unfold pend, wr_set. cbn [q12 qrel pubout p_q12 p_unack]. rewrite !in_app_iff. exact H. }
   destruct (q12 w) as [|p2 r2] eqn:Eq2.
   - destruct (q0 w) as [|p3 r3]; inversion Hp; subst; apply Hdone; tauto.
   - destruct (quota_available (fl w)).
     + destruct (acquire (fl w)) as [[id f']| |] eqn:Eacq; [|destruct (q0 w); inversion Hp|destruct (q0 w); inversion Hp].
-      assert (Hfresh : ~ In id (keys out1)).
+      assert (Hfresh : ~ In id (keys (pubout w))).
       { intros Hc. apply Hk1 in Hc. apply Hids in Hc. destruct (acquire_ok _ _ _ Eacq) as [Hni _]. exact (Hni Hc). }
       destruct (expired now (with_id p2 id)) eqn:Eex.
       * assert (Hne : p <> p2).
@@ -179,18 +183,18 @@ Proof.
   unfold pend in Hin. rewrite !in_app_iff in Hin.
   assert (Hgoal : forall x, goodb t x = true ->
             In x (p_q12 w ++ flat_map (enc_queued now) (q12 w)) \/
-            In x (p_unack w ++ map enc_unack (qrel w) ++ map (fun y => enc_unack (snd y)) (pubout w)) ->
+            In x (p_unack w ++ map (fun y => enc_unack (snd y)) (rev (pubout w)) ++ map enc_unack (qrel w)) ->
             P t (mkWriter (fl w) [] [] [] [] false
                    (p_q0 w ++ (if offq0 w then flat_map (enc_queued now) (q0 w) else []))
                    (p_q12 w ++ flat_map (enc_queued now) (q12 w))
-                   (p_unack w ++ map enc_unack (qrel w) ++ map (fun y => enc_unack (snd y)) (pubout w)) (offq0 w))).
+                   (p_unack w ++ map (fun y => enc_unack (snd y)) (rev (pubout w)) ++ map enc_unack (qrel w)) (offq0 w))).
   { intros x Hx H. exists x. split; [|exact Hx]. unfold pend. cbn [q12 qrel pubout p_q12 p_unack map app]. apply in_or_app. exact H. }
   destruct Hin as [H|[H|[H|[H|H]]]].
   - apply (Hgoal (with_id p 0)); [exact Hg|]. left. apply in_or_app. right. apply in_flat_map. exists p. split; [exact H|].
     unfold enc_queued. rewrite (goodb_not_expired t now p Hg). left. reflexivity.
-  - apply (Hgoal (enc_unack p)); [apply goodb_enc_unack; exact Hg|]. right. apply in_or_app. right. apply in_or_app. left. apply in_map. exact H.
-  - apply (Hgoal (enc_unack p)); [apply goodb_enc_unack; exact Hg|]. right. apply in_or_app. right. apply in_or_app. right.
-    apply in_map_iff in H. destruct H as [y [<- Hy]]. apply in_map_iff. exists y. auto.
+  - apply (Hgoal (enc_unack p)); [apply goodb_enc_unack; exact Hg|]. right. apply in_or_app. right. apply in_or_app. right. apply in_map. exact H.
+  - apply (Hgoal (enc_unack p)); [apply goodb_enc_unack; exact Hg|]. right. apply in_or_app. right. apply in_or_app. left.
+    apply in_map_iff in H. destruct H as [y [<- Hy]]. apply in_map_iff. exists y. split; [reflexivity|]. apply in_rev in Hy. exact Hy.
   - apply (Hgoal p Hg). left. apply in_or_app. left. exact H.
   - apply (Hgoal p Hg). right. apply in_or_app. left. exact H.
 Qed.
@@ -206,10 +210,9 @@ Proof.
     + destruct (expired now p); [exact HO|]. destruct (pk p) as [[|q]|]; intros _; cbn; apply HO; exact Ea.
   - unfold pop_round in Hs. destruct (alive w) eqn:Ea; cbn [negb] in Hs.
     + intros H. exfalso. revert Hs H.
-      destruct (match qrel w with [] => _ | _ => _ end) as [[o1 qrel1] out1].
-      destruct (match q12 w with [] => _ | _ => _ end) as [[[[oc2 f2] q12'] out2] o2].
-      destruct (match q0 w with [] => _ | _ => _ end) as [o3 q0'].
-      intros Hs. inversion Hs; subst. unfold wr_set. cbn [alive]. congruence.
+      destruct (qrel w) as [|pr rr]; destruct (q12 w) as [|p2 r2]; try destruct (quota_available (fl w));
+        try (destruct (acquire (fl w)) as [[id f']| |]; [destruct (expired now (with_id p2 id))| |]);
+        destruct (q0 w) as [|p3 r3]; intros Hs; inversion Hs; subst; unfold wr_set; cbn [alive]; congruence.
     + inversion Hs; subst. exact HO.
   - inversion Hs; subst. destruct (alive w) eqn:Ea; [|exact HO]. intros H. rewrite on_ack_alive in H. congruence.
   - inversion Hs; subst. unfold close. destruct (alive w) eqn:Ea; cbn [negb]; [intros _; cbn; auto | exact HO].
